@@ -643,6 +643,10 @@ class SocWorld(World):
                     if res is None:
                         stats.fault("unassigned_address")
                     sd = ram_of.get(id(res)) if res is not None else None
+                    if sd is not None and a not in shadow:
+                        raise Violation("C01", "memory-map-queries-disagree", state["t"],
+                                        f"decode_address({a:#x}) returns a memory that "
+                                        f"all_resources() does not report at that address")
                     if sd is not None:
                         if we:
                             if sd["writable"]:
